@@ -454,7 +454,116 @@ def c_static(I, fr, path):
     """`const {alloc: &Lazy<..>}` style references to statics are printed as paths; evaluate the static's body once"""
     return NotImplemented
 
+def m_first_chunk(I, fr, fn, a):
+    n = int(re.search(r'::<(\d+)>$', fn).group(1)); sl = a[0]
+    if not isinstance(sl, SliceRef): sl = SliceRef(sl, 0, len(I.deref(sl)))
+    if sl.len < n: return none()
+    last = 'last_chunk' in fn
+    return some(SliceRef(sl.base, sl.start + (sl.len - n if last else 0), n))
+def m_slice_get(I, fr, fn, a):
+    sl, ix = a
+    if not isinstance(sl, SliceRef): sl = SliceRef(sl, 0, len(I.deref(sl)))
+    if isinstance(ix, int):
+        return some(Ref(sl.base.frame, sl.base.local, list(sl.base.path) + [sl.start + ix])) if ix < sl.len else none()
+    try: return some(m_index_range(I, fr, fn, [sl, ix]))
+    except Panic: return none()
+def m_slice_is_empty(I, fr, fn, a):
+    sl = a[0]; return (sl.len if isinstance(sl, SliceRef) else len(I.deref(sl))) == 0
+def m_slice_split_at(I, fr, fn, a):
+    sl, k = a
+    if not isinstance(sl, SliceRef): sl = SliceRef(sl, 0, len(I.deref(sl)))
+    if k > sl.len: raise Panic('split_at: mid > len')
+    return Agg('tuple', [SliceRef(sl.base, sl.start, k), SliceRef(sl.base, sl.start + k, sl.len - k)])
+def m_slice_first_last(I, fr, fn, a):
+    sl = a[0]
+    if not isinstance(sl, SliceRef): sl = SliceRef(sl, 0, len(I.deref(sl)))
+    if sl.len == 0: return none()
+    i = 0 if fn.endswith('first') else sl.len - 1
+    return some(Ref(sl.base.frame, sl.base.local, list(sl.base.path) + [sl.start + i]))
+def m_iter_take(I, fr, fn, a): return IterObj(as_items(I, a[0])[:a[1]])
+def m_iter_skip(I, fr, fn, a): return IterObj(as_items(I, a[0])[a[1]:])
+def m_iter_filter(I, fr, fn, a):
+    out = []
+    for x in as_items(I, a[0]):
+        h = _tmp_ref(I, x)
+        if I.truth(I.call_closure(fr, a[1], [h])): out.append(x)
+    return IterObj(out)
+def m_iter_take_while(I, fr, fn, a):
+    out = []
+    for x in as_items(I, a[0]):
+        if not I.truth(I.call_closure(fr, a[1], [_tmp_ref(I, x)])): break
+        out.append(x)
+    return IterObj(out)
+def _tmp_ref(I, x):
+    from .mirsym import Frame, Item
+    f = Frame(Item('fn', '<tmp>', '')); f.locals['t'] = x; return Ref(f, 't', [])
+def m_iter_reduce(I, fr, fn, a):
+    items = as_items(I, a[0])
+    if not items: return none()
+    acc = items[0]
+    for x in items[1:]: acc = I.call_closure(fr, a[1], [acc, x])
+    return some(acc)
+def m_iter_count(I, fr, fn, a): return len(as_items(I, a[0]))
+def m_iter_last(I, fr, fn, a):
+    items = as_items(I, a[0]); return some(items[-1]) if items else none()
+def m_iter_chain(I, fr, fn, a): return IterObj(as_items(I, a[0]) + as_items(I, a[1]))
+def m_iter_all_any(I, fr, fn, a):
+    any_ = fn.split('::')[-2 if fn.endswith('>') else -1].startswith('any') or '::any::' in fn
+    for x in as_items(I, a[0]):
+        t = I.truth(I.call_closure(fr, a[1], [x]))
+        if any_ and t: return True
+        if not any_ and not t: return False
+    return not any_
+def m_iter_sum_dispatch(I, fr, fn, a):
+    m = re.match(r'^<(.*) as core::iter::Iterator>::(sum|product)::<(.*)>$', fn)
+    ity, which, out = m.groups()
+    items = as_items(I, a[0]); a[0] = IterObj(items)
+    # element type: references if the iterator yields references
+    elem = '&' + out if (items and isinstance(items[0], (Ref, SliceRef))) or 'Iter<' in ity else out
+    tr = 'Sum' if which == 'sum' else 'Product'
+    return I.call(fr, f'<{out} as core::iter::{tr}<{elem}>>::{which}::<I>', [a[0]])
+def m_unwrap_or_default(I, fr, fn, a):
+    e = a[0]
+    if e.variant in ('Some', 'Ok'): return e.fields[0]
+    m = re.match(r'^core::(?:option::Option|result::Result)::<(.*?)(?:, .*)?>::unwrap_or_default$', fn)
+    return I.call(fr, f'<{m.group(1)} as core::default::Default>::default', [])
+def m_unwrap_or_else(I, fr, fn, a):
+    e, f = a
+    if e.variant in ('Some', 'Ok'): return e.fields[0]
+    return I.call_closure(fr, f, [] if e.variant == 'None' else [e.fields[0]])
+def m_ok_or_else(I, fr, fn, a):
+    e, f = a
+    return ok(e.fields[0]) if e.variant == 'Some' else err(I.call_closure(fr, f, []))
+def m_bool_then(I, fr, fn, a):
+    c = I.truth(a[0])
+    if fn.endswith('then_some'): return some(a[1]) if c else none()
+    return some(I.call_closure(fr, a[1], [])) if c else none()
+def m_option_copied(I, fr, fn, a):
+    e = a[0]
+    return some(cp(D(I, e.fields[0]))) if e.variant == 'Some' else e
+def m_option_filter(I, fr, fn, a):
+    e, f = a
+    if e.variant == 'None': return e
+    return e if I.truth(I.call_closure(fr, f, [_tmp_ref(I, e.fields[0])])) else none()
+
 STD_FNS = [
+    (r'^core::slice::<impl \[.*\]>::(first|last)_chunk::<\d+>$', m_first_chunk),
+    (r'^core::slice::<impl \[.*\]>::get::', m_slice_get),
+    (r'^core::slice::<impl \[.*\]>::is_empty$', m_slice_is_empty),
+    (r'^core::slice::<impl \[.*\]>::split_at$', m_slice_split_at),
+    (r'^core::slice::<impl \[.*\]>::(first|last)$', m_slice_first_last),
+    (r'^<.* as core::iter::Iterator>::take$', m_iter_take), (r'^<.* as core::iter::Iterator>::skip$', m_iter_skip),
+    (r'^<.* as core::iter::Iterator>::filter::', m_iter_filter), (r'^<.* as core::iter::Iterator>::take_while::', m_iter_take_while),
+    (r'^<.* as core::iter::Iterator>::reduce::', m_iter_reduce), (r'^<.* as core::iter::Iterator>::count$', m_iter_count),
+    (r'^<.* as core::iter::Iterator>::last$', m_iter_last), (r'^<.* as core::iter::Iterator>::chain::', m_iter_chain),
+    (r'^<.* as core::iter::Iterator>::(all|any)::', m_iter_all_any),
+    (r'^<.* as core::iter::Iterator>::(sum|product)::<.*>$', m_iter_sum_dispatch),
+    (r'^core::(option::Option|result::Result)::<.*>::unwrap_or_default$', m_unwrap_or_default),
+    (r'^core::(option::Option|result::Result)::<.*>::unwrap_or_else::', m_unwrap_or_else),
+    (r'^core::option::Option::<.*>::ok_or_else::', m_ok_or_else),
+    (r'^core::bool::<impl bool>::then(_some)?(::.*)?$', m_bool_then),
+    (r'^core::option::Option::<&.*>::(copied|cloned)$', m_option_copied),
+    (r'^core::option::Option::<.*>::filter::', m_option_filter),
     (r'^<.* as core::ops::Try>::branch$', m_try_branch),
     (r'^<.* as core::ops::FromResidual<.*>>::from_residual$', m_from_residual),
     (r'^<(u\d+|usize|i\d+) as core::convert::From<(u\d+|bool|usize)>>::from$', m_int_from),
